@@ -82,6 +82,11 @@ def audit(repo):
     res["close_notify_all_empty"] = bool(re.search(r"(?:^|[;{}])\s*empty_\.notify_all\s*\(\s*\)\s*;", c))
     if not re.search(r"full_\.notify_(?:all|one)\s*\(\s*\)", c) or not re.search(r"empty_\.notify_(?:all|one)\s*\(\s*\)", c):
         raise AnchorError("queue::close: notification of full_/empty_ not found")
+    # put()/get()/get_until() wake a waiter of the other side on EVERY successful push/pop (an unconditional statement,
+    # not guarded by a size test): the model's LNotifyOne steps are unconditional
+    res["put_notify_one_unconditional"] = bool(re.search(r"(?:^|[;{}])\s*empty_\.notify_one\s*\(\s*\)\s*;", bodies["put"]))
+    res["get_notify_one_unconditional"] = bool(re.search(r"(?:^|[;{}])\s*full_\.notify_one\s*\(\s*\)\s*;", bodies["get"]))
+    res["get_until_notify_one_unconditional"] = bool(re.search(r"(?:^|[;{}])\s*full_\.notify_one\s*\(\s*\)\s*;", bodies["get_until"]))
     find1(r"state_\s*=\s*\(\s*queue_\.empty\(\)\s*\?\s*State::CLOSED\s*:\s*State::CLOSING\s*\)\s*;", c, "close: state write")
     return res
 
